@@ -802,6 +802,18 @@ def tcp_shard(job):
         cut = case.get('abort_at')
         if cut is None:
             return
+        picked_up = False
+        import threading as _threading
+
+        def alive():        # the simulator's per-connection threads alive right now
+            return {t for t in _threading.enumerate() if type(t).__name__.startswith('server_thread') and t.is_alive()}      # (objects: idents are reused)
+
+        known = alive()
+
+        def handlers():     # ... that were not there before this connection was made
+            return len(alive() - known)
+
+        baseline = 0
         h = _socket.socket(_socket.AF_INET, _socket.SOCK_STREAM)
         h.setsockopt(_socket.SOL_SOCKET, _socket.SO_REUSEADDR, 1)
         h.bind(('127.0.0.1', 0))
@@ -814,18 +826,36 @@ def tcp_shard(job):
                 data = rc.register()[:1 + cut % 23]             # a partial encapsulation header
             try:
                 h.sendall(data)
+                # until the simulator demonstrably serves (or has already finished with) this connection: a per-connection thread
+                # appeared, or it answered, or it closed the connection
+                t1 = _time.time()
+                h.settimeout(0.01)
+                while _time.time() - t1 < 5.0 and not picked_up:
+                    if handlers() > baseline:
+                        picked_up = True
+                        break
+                    try:
+                        got = h.recv(4096)
+                        picked_up = True            # an answer, or b'' = closed by the simulator
+                    except _socket.timeout:
+                        pass
+                    except OSError:
+                        picked_up = True
                 _time.sleep(0.05)
                 h.setsockopt(_socket.SOL_SOCKET, _socket.SO_LINGER, _struct.pack('ii', 1, 0))      # close => RST
             except OSError:
                 pass
         finally:
             h.close()
-        # the server's own connection table tells when the hostile session's thread is done (entry removed): the new session
-        # must not race with it.  If the entry never goes away, go on after 5 s: whether the next session is served decides.
-        key = '127_0_0_1_%d' % port
+        # the new session must not race with the aborted one: wait until the simulator's thread for the aborted connection has
+        # ended (the number of live per-connection threads is back to what it was).  On a loaded machine that can take long; if
+        # it has not happened within 30 s the case is not judged.
         t0 = _time.time()
-        while _time.time() - t0 < 5.0 and dict.__contains__(srv.enip_main.connections, key):
+        while _time.time() - t0 < 30.0 and handlers() > baseline:
             _time.sleep(0.02)
+        if not picked_up or handlers() > baseline:
+            s.count('tcp:same-port-reconnect:not-judged:aborted-session-still-being-served')
+            return
         s.count('tcp:same-port-reconnect')
         n = _socket.socket(_socket.AF_INET, _socket.SOCK_STREAM)
         n.setsockopt(_socket.SOL_SOCKET, _socket.SO_REUSEADDR, 1)
